@@ -368,16 +368,34 @@ def hash_sources(body, e):
 def nd1(F, R):
     n_src = 0
     seen_src = set()
-    for root in F.all_bodies():
-        if root.kind == "Closure":
-            continue
+    for root in F.roots():
         raw = Collector(F, depth=0).collect(root)
         calls = [e for e in raw if e.kind == "call"]
         R.analysed(root, len(raw))
+        # vectors filled inside a hash-ordered loop carry that order
+        tainted_vecs = {}
+        for e in calls:
+            if e.name in ("push", "push_back", "extend", "extend_from_slice", "push_str", "insert") and e.args and "Vec" in expr_type(e.body, e.args[0]):
+                drv = []
+                for f in e.facts:
+                    if f[0] == "in" and f[2] == frozenset(["Some"]):
+                        cc = strip_load(f[1])
+                        if cc[0] == "discr" and strip_load(cc[1])[0] == "next":
+                            drv += hash_sources(e.body, strip_load(cc[1])[1])
+                for a in e.args[1:]:
+                    drv += hash_sources(e.body, a)
+                if drv:
+                    tainted_vecs[strip_sites(strip_load(e.args[0]))] = drv[0]
         for e in calls:
             srcs = []
             for a in e.args:
                 srcs += hash_sources(e.body, a)
+                for tv, src0 in tainted_vecs.items():
+                    if mentions(a, lambda x: strip_sites(x) == tv):
+                        srcs.append(src0)
+            # filling such a vector is propagation, not yet a use
+            if e.name in ("push", "push_back") and e.args and strip_sites(strip_load(e.args[0])) in tainted_vecs:
+                continue
             # loop bodies driven by a hash-ordered iterator
             for f in e.facts:
                 if f[0] == "in" and f[2] == frozenset(["Some"]):
@@ -416,6 +434,8 @@ def nd1(F, R):
                 if s2.name in SORTS and s2.body is e.body and e.body.dominates(s2.site, e.site):
                     for a in s2.args:
                         if any(strip_sites(x) in {strip_sites(y) for y in srcs} for x in hash_sources(s2.body, a)):
+                            sanit = True
+                        if any(mentions(a, lambda x: strip_sites(x) == tv) for tv in tainted_vecs):
                             sanit = True
             # the use is of a sorted adaptor chain
             for a in e.args:
